@@ -3,6 +3,7 @@ import Genshi.Model.Lru
 import Genshi.Model.Loader
 import Genshi.Model.LoaderRace
 import Genshi.Gen.Loader
+import Driver.C15Path
 namespace Driver.C15
 open Genshi Genshi.Sexp Genshi.Lru
 
@@ -218,6 +219,6 @@ def handle : List Sexp → Option Sexp
       let cap ← cap.toNat?; let nkeys ← nkeys.toNat?
       let ops ← ops.mapM op?
       pure (lruRun cap nkeys ops)
-  | _ => none
+  | other => Driver.C15Path.handle other
 
 end Driver.C15
